@@ -91,7 +91,8 @@ def model_args_dyn(model, meta):
 def explore(chk: Check, tier: str, want: str):
     """want = "C03" or "C04": which property's violations are reported (both are always evaluated)."""
     rnd = random.Random(48271 * chk.seed + (3 if want == "C03" else 4))
-    n = BUDGET[tier]
+    # (C04 replays the reported models only and skips the grid brute force: it affords twice the contracts)
+    n = BUDGET[tier] * (2 if want == "C04" and tier == "quick" else 1)
     work = workdir(f"{want.lower()}")
     try:
         runs = []
